@@ -152,6 +152,21 @@ def expected_events(case, op):
     return []
 
 
+def evo_events(case, op):
+    """(labware, real index, signed volume) per given well of an EVO script command, in the given order; None if the
+    arguments are not of the plain kind"""
+    L = case["labware"]
+    ws = flatF(op["wells"])
+    vol = op["volume"]
+    if vol["t"] not in ("scalar", "list"):
+        return None
+    vs = [num(vol["v"])] * len(ws) if vol["t"] == "scalar" else [num(v) for v in vol["v"]]
+    if len(vs) != len(ws) or any(v is None or v < 0 for v in vs) or not all(valid_well(L[op["lw"]], w) for w in ws):
+        return None
+    sign = -1 if op["op"] == "evo_asp" else 1
+    return [(op["lw"], real_index(L[op["lw"]], w), sign * v) for w, v in zip(ws, vs)]
+
+
 def oracle_C02(case, obs):
     bad = []
     L = case["labware"]
@@ -245,7 +260,7 @@ def oracle_C04(case, obs):
             # an accepted script command books each given volume on the well it was given for
             ws = flatF(op["wells"])
             vol = op["volume"]
-            vs = [num(vol["v"])] * len(ws) if vol["t"] == "scalar" else [num(v) for v in vol["v"]]
+            vs = [num(vol["v"])] * len(ws) if vol["t"] == "scalar" else ([num(v) for v in vol["v"]] if vol["t"] == "list" else [None])
             if len(vs) == len(ws) and all(v is not None for v in vs) and all(valid_well(L[op["lw"]], w) for w in ws):
                 sign = -1 if op["op"] == "evo_asp" else 1
                 want = [Fraction(v) for v in prev_lw(obs, i)[op["lw"]]["vols"]]
@@ -468,12 +483,34 @@ def oracle_C05(case, obs):
         if not alive:
             continue
         k = op["op"]
+        if st["exc"] == "VolumeOverflowError" and k in ("add", "dispense") and op.get("comps"):
+            # the additions before the offending well were applied: volume AND mixture (the call is one loop over the wells)
+            ev = expected_events(case, op)
+            if ev is not None:
+                for n_, (lw, j, dv) in enumerate(ev):
+                    if vol[lw][j] + dv > Fraction(L[lw]["max"]):
+                        break
+                    c = op["comps"][n_]
+                    vol[lw][j] += dv
+                    if c is None:
+                        if dv > 0:
+                            known[lw][j] = False
+                    else:
+                        for name, f in c.items():
+                            amt[lw][j][name] = amt[lw][j].get(name, 0) + Fraction(f) * dv
+                        if sum(Fraction(f) for f in c.values()) != 1 and dv > 0:
+                            known[lw][j] = False
+                if [str(v) for v in vol[op["lw"]]] == [str(Fraction(v)) for v in st["lw"][op["lw"]]["vols"]]:
+                    for kk, comp in st["comp"].items():
+                        cmp_comp(bad, L[int(kk)]["name"], comp, amt[int(kk)], vol[int(kk)], known[int(kk)], f"after the rejected call {i} ({k}), in the wells filled before the offending one")
+            alive = False
+            continue
         if st["exc"] is not None:
             alive = False  # partial effects: the shadow stops here
             continue
         before_total = None
         if k in ("remove", "aspirate", "evo_asp"):
-            ev = expected_events(case, op) if k != "evo_asp" else None
+            ev = expected_events(case, op) if k != "evo_asp" else evo_events(case, op)
             if ev is None:
                 alive = False
                 continue
@@ -484,8 +521,8 @@ def oracle_C05(case, obs):
                     for c in amt[lw][j]:
                         amt[lw][j][c] = amt[lw][j][c] * new / old
                 vol[lw][j] = new
-        elif k in ("add", "dispense"):
-            ev = expected_events(case, op)
+        elif k in ("add", "dispense", "evo_disp"):
+            ev = expected_events(case, op) if k != "evo_disp" else evo_events(case, op)
             if ev is None:
                 alive = False
                 continue
@@ -522,9 +559,6 @@ def oracle_C05(case, obs):
                 continue
             for w in dw:
                 move(amt, vol, known, op["src"], op["col"], op["dst"], real_index(L[op["dst"]], w), v)
-        elif k in ("evo_disp",):
-            alive = False
-            continue
         # compare with the implementation where it was observed
         for kk, comp in st["comp"].items():
             lw = int(kk)
@@ -1282,6 +1316,16 @@ def oracle_C10(case, obs):
                 if st["exc"] is None and (k in ("aspirate_well", "dispense_well") or ad):
                     bad.append(f"reject: call {i} ({k}) with invalid tip {kw['tip']} was accepted")
                 continue
+            if k in ("aspirate_well", "dispense_well") and st["exc"] is not None:
+                # a collection of valid tips (any iterable, any length, repeats allowed) is emitted as the OR of its members
+                other = dict({"liquid_class": "", "rack_id": "", "tube_id": "", "rack_type": "", "forced_rack_type": ""}, **{f: v for f, v in kw.items() if f != "tip"})
+                mvq = mv_before(case, i)
+                v1 = num(op["volume"])
+                plain = (not isinstance(op["rack_label"], dict) and not text_bad(op["rack_label"], True) and isinstance(op["position"], int) and op["position"] >= 0
+                         and v1 is not None and 0 <= v1 <= min(mvq, 7158278)
+                         and not any(isinstance(other[f], dict) or text_bad(other[f], f in ("rack_id", "rack_type", "forced_rack_type")) for f in other))
+                if plain:
+                    bad.append(f"accept: call {i} ({k}) with the valid tip selection {kw['tip']} raised {st['exc']}")
             for r in ad:
                 if r.split(";")[9] != mask:
                     bad.append(f"mask: call {i} ({k}): tip {kw['tip']} emitted as {r.split(';')[9]!r}, expected {mask!r}")
@@ -1386,8 +1430,10 @@ def oracle_C13(case, obs):
         vol = op["volume"]
         if vol["t"] == "scalar":
             vs = [num(vol["v"])] * len(ws)
-        else:
+        elif vol["t"] == "list":
             vs = [num(v) for v in vol["v"]]
+        else:
+            vs = [None] * len(ws)  # nested lists, tuples ...: not a per-tip list of numbers
         tipn = []
         for e in tips:
             if (e[0] == "i" and 1 <= e[1] <= 8) or e[0] == "t":
@@ -1503,4 +1549,4 @@ def oracle_C08(case, obs):
 ORACLES = {"C08": oracle_C08, "C01": oracle_C01, "C02": oracle_C02, "C03": oracle_C03, "C04": oracle_C04, "C05": oracle_C05,
            "C06": oracle_C06, "C07": oracle_C07, "C09": oracle_C09, "C10": oracle_C10, "C11": oracle_C11}
 ORACLES_PARAMS = {"C09": oracle_C09, "C10": oracle_C10, "C06": oracle_C06}
-ORACLES_EVOCMD = {"C13": oracle_C13, "C10": oracle_C10, "C02": oracle_C02, "C03": oracle_C03, "C04": oracle_C04}
+ORACLES_EVOCMD = {"C13": oracle_C13, "C10": oracle_C10, "C02": oracle_C02, "C03": oracle_C03, "C04": oracle_C04, "C05": oracle_C05}
